@@ -76,24 +76,64 @@ func C18(c *Ctx) {
 		}
 		return false
 	}
+	closure := pkgClosure(exec)
+	exeVal := callResults(K)[0]
+	// tracesTo: every leaf definition of v (through helpers) is one of targets
+	tracesTo := func(v ssa.Value, targets ...ssa.Value) bool {
+		leaves := deepDefs(v, closure)
+		if len(leaves) == 0 {
+			return false
+		}
+		for _, l := range leaves {
+			ok := false
+			for _, t := range targets {
+				if l == t {
+					ok = true
+				}
+			}
+			if !ok {
+				return false
+			}
+		}
+		return true
+	}
+	// anchorIn: the instruction of Exec that executes `in` (itself, or the call leading to its function)
+	var anchorIn func(in ssa.Instruction, depth int) ssa.Instruction
+	anchorIn = func(in ssa.Instruction, depth int) ssa.Instruction {
+		if in.Parent() == exec || depth > 4 {
+			return in
+		}
+		sites := callSitesOf(in.Parent(), closure)
+		if len(sites) != 1 {
+			return nil
+		}
+		return anchorIn(sites[0], depth+1)
+	}
 	// ---- snapshot
 	var snap *ssa.MapUpdate
 	var M ssa.Value
-	ssau.Instrs(exec, func(in ssa.Instruction) {
-		mu, ok := in.(*ssa.MapUpdate)
-		if !ok {
-			return
-		}
-		rg, ok := rangeKV(mu.Key, mu.Value)
-		if !ok || rg.X != ssa.Value(bsParam) {
-			return
-		}
-		snap, M = mu, mu.Map
-	})
+	for _, g := range closure {
+		ssau.Instrs(g, func(in ssa.Instruction) {
+			mu, ok := in.(*ssa.MapUpdate)
+			if !ok {
+				return
+			}
+			rg, ok := rangeKV(mu.Key, mu.Value)
+			if !ok || !isBindingsT(rg.X.Type()) || !tracesTo(rg.X, bsParam) {
+				return
+			}
+			if base, is := isFieldLoad(mu.Map, "core", "Execution", "Bs"); is && base != nil {
+				return // that is a restore-like write, not the snapshot
+			}
+			snap, M = mu, mu.Map
+		})
+	}
 	if snap == nil {
 		c.R.Violate("C18-R1", "Exec: snapshot of permanent bindings", c.P.Pos(exec.Pos()), "no loop saves the (name, value) pairs of the given bindings before the call")
 		return
 	}
+	S := snap.Parent()
+	c.R.Fn(fname(S))
 	_, private := M.(*ssa.MakeMap)
 	c.R.Check(private, "C18-R1", "Exec: snapshot map is private to the activation", c.pos(snap), "map created by make in this call", "the snapshot is kept in storage that outlives or is shared between executions ("+M.String()+")")
 	underPerm := false
@@ -103,7 +143,6 @@ func C18(c *Ctx) {
 		}
 	}
 	c.R.Check(underPerm, "C18-R1", "Exec: snapshot selects permanent names", c.pos(snap), "under isPermanent(name)", "the snapshot is not taken for exactly the names ending in '!'")
-	// isPermanent: suffix "!"
 	okSuffix := false
 	ssau.Instrs(isPerm, func(in ssa.Instruction) {
 		if cl, ok := in.(*ssa.Call); ok && ssau.CalleeName(cl) == "strings.HasSuffix" {
@@ -113,73 +152,112 @@ func C18(c *Ctx) {
 		}
 	})
 	c.R.Check(okSuffix, "C18-R1", "isPermanent: name ends in '!'", c.P.Pos(isPerm.Pos()), "strings.HasSuffix(p, \"!\")", "isPermanent no longer tests the '!' suffix")
-	// snapshot loop precedes the call: every path to K passes the loop header or the flag's false edge
-	loops := flow.Loops(exec)
-	SL := flow.InnermostLoop(loops, snap.Block())
-	okBefore := false
+	// the snapshot loop sees every entry, and is executed before the wrapped call
+	SL := flow.InnermostLoop(flow.Loops(S), snap.Block())
+	okBefore := SL != nil
+	whyBefore := "the snapshot is not taken in a loop over the given bindings"
 	if SL != nil {
-		avoid := map[*ssa.BasicBlock]bool{SL.Header: true}
-		for _, b := range exec.Blocks {
-			if iff, ok := b.Instrs[len(b.Instrs)-1].(*ssa.If); ok && isFlag(iff.Cond) {
-				avoid[b] = true // paths through the switch are inspected separately below
-			}
-		}
-		okBefore = !flow.Reachable(exec.Blocks[0], K.Block(), avoid) || exec.Blocks[0] == K.Block()
-		// through the flag: the true edge must lead to the snapshot loop before K
-		for _, b := range exec.Blocks {
-			if iff, ok := b.Instrs[len(b.Instrs)-1].(*ssa.If); ok && isFlag(iff.Cond) && flow.Reachable(b, K.Block(), nil) && b.Dominates(K.Block()) {
-				if flow.Reachable(b.Succs[0], K.Block(), map[*ssa.BasicBlock]bool{SL.Header: true}) && b.Succs[0] != K.Block() {
-					okBefore = false
-				}
-			}
-		}
-		// the snapshot loop must see all entries: no early exit other than exhaustion
 		for _, ex := range SL.Exits() {
 			if ex[0] != SL.Header {
-				okBefore = false
+				okBefore, whyBefore = false, "the snapshot loop can stop before it has seen every binding"
 			}
 		}
-		if flow.Reachable(K.Block(), SL.Header, nil) {
-			okBefore = false
+		var target *ssa.BasicBlock
+		if S == exec {
+			target = SL.Header
+		} else if a := anchorIn(snap, 0); a != nil {
+			target = a.Block()
+			// inside the helper: the loop is reached on every path to a return that hands the map back
+			for _, b := range S.Blocks {
+				if ret, isRet := b.Instrs[len(b.Instrs)-1].(*ssa.Return); isRet && len(ret.Results) > 0 {
+					for _, d := range phiDefs(ret.Results[0], nil, map[ssa.Value]bool{}) {
+						if d == M && flow.Reachable(S.Blocks[0], b, map[*ssa.BasicBlock]bool{SL.Header: true}) && b != S.Blocks[0] {
+							okBefore, whyBefore = false, "the helper can return the map without having filled it"
+						}
+					}
+				}
+			}
+		} else {
+			okBefore, whyBefore = false, "cannot relate the snapshot to the wrapper's body"
+		}
+		if target != nil {
+			avoid := map[*ssa.BasicBlock]bool{target: true}
+			// paths around the snapshot are allowed only through the feature switch
+			seen := map[*ssa.BasicBlock]bool{}
+			stack := []*ssa.BasicBlock{exec.Blocks[0]}
+			for len(stack) > 0 {
+				b := stack[len(stack)-1]
+				stack = stack[:len(stack)-1]
+				if seen[b] || avoid[b] {
+					continue
+				}
+				seen[b] = true
+				if b == K.Block() && target != K.Block() {
+					okBefore, whyBefore = false, "the wrapped function can run before (or without) the snapshot"
+					continue
+				}
+				if iff, isIf := b.Instrs[len(b.Instrs)-1].(*ssa.If); isIf && isFlag(iff.Cond) {
+					// the false edge (feature off) may bypass; follow only the true edge for the obligation
+					stack = append(stack, b.Succs[0])
+					continue
+				}
+				stack = append(stack, b.Succs...)
+			}
+			if target == K.Block() {
+				// same block: the snapshot call must precede K
+				if a := anchorIn(snap, 0); a == nil || flow.Index(a) > flow.Index(K) {
+					okBefore, whyBefore = false, "the wrapped function runs before the snapshot"
+				}
+			}
+			if flow.Reachable(K.Block(), target, nil) && target != K.Block() {
+				okBefore, whyBefore = false, "the snapshot can be taken after the wrapped function ran"
+			}
 		}
 	}
-	c.R.Check(okBefore, "C18-R1", "Exec: snapshot completes before the wrapped call", c.pos(K), "every path to the call runs the whole snapshot loop (or the feature is switched off)", "the wrapped function can run before (or without) a complete snapshot")
+	c.R.Check(okBefore, "C18-R1", "Exec: snapshot completes before the wrapped call", c.pos(K), "every path to the call runs the whole snapshot loop (or the feature is switched off)", whyBefore)
 
 	// ---- restore
 	var restore *ssa.MapUpdate
-	ssau.Instrs(exec, func(in ssa.Instruction) {
-		mu, ok := in.(*ssa.MapUpdate)
-		if !ok || mu == snap {
-			return
-		}
-		base, is := isFieldLoad(mu.Map, "core", "Execution", "Bs")
-		if !is {
-			return
-		}
-		ex, isEx := base.(*ssa.Extract)
-		if !isEx || ex.Tuple != ssa.Value(K) || ex.Index != 0 {
-			return
-		}
-		restore = mu
-	})
+	for _, g := range closure {
+		ssau.Instrs(g, func(in ssa.Instruction) {
+			mu, ok := in.(*ssa.MapUpdate)
+			if !ok || mu == snap || !isBindingsT(mu.Map.Type()) {
+				return
+			}
+			// the map written is the Bs of the wrapped call's execution
+			isExeBs := false
+			for _, d := range deepDefs(mu.Map, closure) {
+				if base, is := isFieldLoad(d, "core", "Execution", "Bs"); is && tracesTo(base, exeVal) {
+					isExeBs = true
+				} else {
+					isExeBs = false
+					break
+				}
+			}
+			if isExeBs {
+				restore = mu
+			}
+		})
+	}
 	if restore == nil {
 		c.R.Violate("C18-R1", "Exec: restore into the returned bindings", c.pos(K), "nothing writes into the bindings returned by the wrapped function")
 		return
 	}
+	R := restore.Parent()
+	c.R.Fn(fname(R))
 	rg, okKV := rangeKV(restore.Key, restore.Value)
 	fromSnap := false
 	if okKV {
-		for _, d := range phiDefs(rg.X, nil, map[ssa.Value]bool{}) {
-			if d == M {
-				fromSnap = true
-			} else if !ssau.IsNilConst(d) {
+		leaves := deepDefs(rg.X, closure)
+		fromSnap = len(leaves) > 0
+		for _, d := range leaves {
+			if d != M && !ssau.IsNilConst(d) {
 				fromSnap = false
-				break
 			}
 		}
 	}
 	c.R.Check(okKV && fromSnap, "C18-R1", "Exec: restored names and values come from the snapshot", c.pos(restore), "exe.Bs[p] = v for (p, v) ranging over the saved map", "the value (or name) written back is not the one saved before the call (e.g. it is read again from the given bindings, which the action may have changed)")
-	RL := flow.InnermostLoop(loops, restore.Block())
+	RL := flow.InnermostLoop(flow.Loops(R), restore.Block())
 	okAfter := RL != nil
 	if RL != nil {
 		for _, ex := range RL.Exits() {
@@ -187,9 +265,7 @@ func C18(c *Ctx) {
 				okAfter = false
 			}
 		}
-		// every path from K to a return either passes the restore loop or leaves through an allowed skip edge
-		exe := callResults(K)[0]
-		allowedSkip := func(b *ssa.BasicBlock) (int, bool) { // returns the successor index that may skip
+		allowedSkip := func(b *ssa.BasicBlock) (int, bool) {
 			iff, ok := b.Instrs[len(b.Instrs)-1].(*ssa.If)
 			if !ok {
 				return 0, false
@@ -198,9 +274,16 @@ func C18(c *Ctx) {
 				return 1, true
 			}
 			if bo, ok := iff.Cond.(*ssa.BinOp); ok && ssau.IsNilConst(bo.Y) {
-				isExe := bo.X == exe
-				if base, is := isFieldLoad(bo.X, "core", "Execution", "Bs"); is && base == exe {
-					isExe = true
+				isExe := tracesTo(bo.X, exeVal)
+				if !isExe {
+					for _, d := range deepDefs(bo.X, closure) {
+						if base, is := isFieldLoad(d, "core", "Execution", "Bs"); is && tracesTo(base, exeVal) {
+							isExe = true
+						} else {
+							isExe = false
+							break
+						}
+					}
 				}
 				if isExe {
 					if bo.Op == token.NEQ {
@@ -211,28 +294,51 @@ func C18(c *Ctx) {
 			}
 			return 0, false
 		}
-		// BFS from K avoiding RL.Header and not following allowed skip edges
-		seen := map[*ssa.BasicBlock]bool{}
-		stack := []*ssa.BasicBlock{K.Block()}
-		for len(stack) > 0 {
-			b := stack[len(stack)-1]
-			stack = stack[:len(stack)-1]
-			if seen[b] || b == RL.Header {
-				continue
-			}
-			seen[b] = true
-			if len(b.Succs) == 0 {
-				if _, isRet := b.Instrs[len(b.Instrs)-1].(*ssa.Return); isRet {
-					okAfter = false
-				}
-				continue
-			}
-			skip, has := allowedSkip(b)
-			for i, s := range b.Succs {
-				if has && i == skip {
+		// bypass search: from `start` in fn, avoiding `target`, not following allowed skip edges; reaching a return is a bypass
+		bypass := func(fn *ssa.Function, start, target *ssa.BasicBlock) bool {
+			seen := map[*ssa.BasicBlock]bool{}
+			stack := []*ssa.BasicBlock{start}
+			for len(stack) > 0 {
+				b := stack[len(stack)-1]
+				stack = stack[:len(stack)-1]
+				if seen[b] || b == target {
 					continue
 				}
-				stack = append(stack, s)
+				seen[b] = true
+				if len(b.Succs) == 0 {
+					if _, isRet := b.Instrs[len(b.Instrs)-1].(*ssa.Return); isRet {
+						return true
+					}
+					continue
+				}
+				skip, has := allowedSkip(b)
+				for i, s := range b.Succs {
+					if has && i == skip {
+						continue
+					}
+					stack = append(stack, s)
+				}
+			}
+			return false
+		}
+		if R == exec {
+			if bypass(exec, K.Block(), RL.Header) {
+				okAfter = false
+			}
+		} else {
+			a := anchorIn(restore, 0)
+			if a == nil {
+				okAfter = false
+			} else {
+				if a.Block() != K.Block() && bypass(exec, K.Block(), a.Block()) {
+					okAfter = false
+				}
+				if a.Block() == K.Block() && flow.Index(a) < flow.Index(K) {
+					okAfter = false
+				}
+				if bypass(R, R.Blocks[0], RL.Header) {
+					okAfter = false
+				}
 			}
 		}
 	}
